@@ -677,8 +677,11 @@ private:
         {
             const ranked_key_type key = Encoder::rank_of_int(key_extract_(x));
             assert(key >= mins_[first_non_empty]);
+            // an empty successor bucket holds the sentinel max(), which a
+            // stored key may equal
             assert(first_non_empty == mins_.size() - 1 ||
-                   key < mins_[first_non_empty + 1]);
+                   key < mins_[first_non_empty + 1] ||
+                   buckets_data_[first_non_empty + 1].empty());
             const auto idx = bucket_map_(key, insertion_limit_);
             assert(idx < first_non_empty);
 
